@@ -117,21 +117,53 @@ def huge_family():
     return fam
 
 
+def _huge_one(a):
+    W, H, rows = a
+    try:
+        inst = C.make_instance(W, H, rows)
+    except (ValueError, OverflowError):
+        return None  # loudly refused (limits of the constructor)
+    return int(inst.lower_bound_bins), int(inst.total_item_area)
+
+
 def check_huge(ctx):
+    """
+    The huge thin-bin family.
+
+    Each constructor call runs in a worker process with a generous wall
+    clock guard (normally < 1 ms): a change that makes the constructor loop
+    over a huge side would otherwise hang the whole check. A timeout is
+    recorded as a cap, never as a violation.
+    """
+    import multiprocessing as mp
     cnt = 0
-    for (W, H, rows, opt) in huge_family():
-        try:
-            inst = C.make_instance(W, H, rows)
-        except (ValueError, OverflowError):
-            continue  # loudly refused (limits of the constructor)
+    fam = huge_family()
+    pool = mp.get_context("fork").Pool(min(ctx.jobs, 8))
+    pending = [(f, pool.apply_async(_huge_one, ((f[0], f[1], f[2]),)))
+               for f in fam]
+    results = []
+    try:
+        for f, r in pending:
+            try:
+                results.append((f, r.get(timeout=180)))
+            except mp.TimeoutError:
+                ctx.cap(f"huge thin bins: the constructor did not return "
+                        f"within 180 s for bin {f[0]}x{f[1]} items={f[2]}; "
+                        "family abandoned")
+                break
+    finally:
+        pool.terminate()
+    for (W, H, rows, opt), got in results:
+        if got is None:
+            continue
+        lb, tia = got
         cnt += 1
         area = sum(r[0] * r[1] * r[2] for r in rows)
         geo = -(-area // (W * H))
-        lb = int(inst.lower_bound_bins)
-        if inst.total_item_area != area:
+        if tia != area:
             ctx.violation("Instance|area or item count wrong",
                           f"bin {W}x{H} items={rows}: total_item_area="
-                          f"{inst.total_item_area}, exact {area}",
+                          f"{tia}, exact {area}",
                           {"W": W, "H": H, "rows": rows, "huge": True})
         if lb < geo:
             ctx.violation("Instance|lower bound below the area bound",
